@@ -77,7 +77,13 @@ def instances(tier, seed):
                    "labels": enumr.relabelings(n, seed, kinds=("large",))[0]}
     for edges in TRIANGLE_COMPLEXES:
         for lab in enumr.relabelings(1 + max(v for e in edges for v in e), seed, kinds=("identity", "reversed", "large")):
-            yield {"kind": "edges", "edges": edges, "m0s": [2, 3, 4], "labels": lab}
+            yield {"kind": "edges", "edges": edges, "m0s": [2, 3, 4], "labels": lab, "reused": lab[0] == 0}
+    # every graph on <= 5 vertices once more on a REUSED object (see run_eecc)
+    for n in range(3, 6):
+        masks = list(enumr.labelled_graph_masks(n, no_isolated=True))
+        for i in range(0, len(masks), 96):
+            yield {"kind": "masks", "n": n, "masks": masks[i:i + 96], "m0s": list(range(2, n + 1)), "labels": None,
+                   "reused": True}
     for n in range(2, 7):
         masks = list(enumr.labelled_graph_masks(n, no_isolated=True))
         step = 96
@@ -95,12 +101,27 @@ def instances(tier, seed):
             yield {"kind": "masks", "n": 6, "masks": masks[i:i + 96], "m0s": [2, 3, 4, 7], "labels": lab}
 
 
-def run_eecc(edges, m0):
+def run_eecc(edges, m0, reused=False):
     from gcmpy.covers.eecc import EECC
 
     def body():
         g = EECC()
-        g.add_edges_from(list(edges))
+        if reused:
+            # history on ONE object: it first covers another graph (one fixed scripted schedule), is handed this graph
+            # through its G setter, is asked for the size-limited maximal cliques under a larger bound, and only then
+            # covers this graph with bound m0 (the explored call)
+            import networkx as nx
+            with engine.scripted_prefix():
+                g.add_edges_from([(0, 1), (0, 2), (1, 2), (2, 3), (3, 4), (2, 4), (4, 5)])
+                g.set_max_clique_size(3)
+                g.get_EECC()
+            G2 = nx.Graph()
+            G2.add_edges_from(list(edges))
+            g.G = G2
+            g.set_max_clique_size(m0 + 2)
+            g.limited_maximal_cliques()
+        else:
+            g.add_edges_from(list(edges))
         g.set_max_clique_size(m0)
         cover = g.get_EECC()
         return cover, g.has_edges()
@@ -148,7 +169,7 @@ def oracle(edges, m0, leaf, must_keep):
     return None
 
 
-def check_graph(res, edges, m0, inst_desc):
+def check_graph(res, edges, m0, inst_desc, reused=False):
     verts = sorted({v for e in edges for v in e})
     mc = enumr.maximal_cliques(verts, edges)
     # maximal cliques of <= m0 vertices sharing no edge with another maximal clique
@@ -159,7 +180,7 @@ def check_graph(res, edges, m0, inst_desc):
             if not any(o is not k and ke & {frozenset(p) for p in itertools.combinations(o, 2)} for o in mc):
                 must_keep.append(k)
     big = max(len(k) for k in mc) > m0
-    body = run_eecc(edges, m0)
+    body = run_eecc(edges, m0, reused)
     state = {"first": None, "leaves": 0, "maxpts": 0}
 
     def on_leaf(leaf):
@@ -185,9 +206,9 @@ def check_graph(res, edges, m0, inst_desc):
         res.nontrivial.add((tuple(edges), m0))
     if state["first"]:
         (key, msg), choices, calls, cover = state["first"]
-        res.violation(key, f"edges={edges} m0={m0} tie-breaks={choices}: {msg}", inst_desc,
-                      edges=edges, m0=m0, choices=choices, calls=calls, cover=cover,
-                      snippet=snippet(edges, m0, calls))
+        res.violation(key, f"edges={edges} m0={m0} {'(reused EECC object) ' if reused else ''}tie-breaks={choices}: "
+                      f"{msg}", inst_desc, edges=edges, m0=m0, choices=choices, calls=calls, cover=cover,
+                      reused=reused, snippet=None if reused else snippet(edges, m0, calls))
     return st.leaves
 
 
@@ -215,6 +236,9 @@ def run_instance(inst, tier):
             edges = enumr.fresh_edges([(lab[a], lab[b]) for a, b in edges])
         for m0 in inst["m0s"]:
             leaves = check_graph(res, edges, m0, {"edges": edges, "m0": m0})
+            if inst.get("reused"):
+                check_graph(res, edges, m0, {"edges": edges, "m0": m0}, reused=True)
+                res.flags.add("reused-object")
             if leaves > 1 and len(res.samples) < 2:
                 res.samples.append({"edges": edges, "m0": m0, "tie_break_sequences_explored": leaves})
     return res
@@ -233,7 +257,7 @@ def finalize(agg, tier):
 def replay(v):
     edges = [tuple(e) for e in v["edges"]]
     m0 = v["m0"]
-    leaf = engine.execute_plain(run_eecc(edges, m0), v["choices"], max_points=len(edges) + 1)
+    leaf = engine.execute_plain(run_eecc(edges, m0, v.get("reused", False)), v["choices"], max_points=len(edges) + 1)
     print("edges:", edges, "m0:", m0, "tie-breaks:", v["choices"])
     print("cover:", leaf.outcome, "exception:", leaf.exception, "cut:", leaf.cut)
     verts = sorted({x for e in edges for x in e})
